@@ -6,114 +6,7 @@ use vstd::arithmetic::mul::*;
 
 verus! {
 
-// seal at the level of the decoder window, State = 2 Words  (sb == 2*wb, TH == W)
-// window = first sb/wb = 2 words after the pending words: [pw, x] where x = 0 (two seal words) or arbitrary suffix word (one seal word)
-// Normal situation: lower + range < M; no wrap anywhere.
-pub proof fn lemma_seal_normal(wb: nat, lower: nat, range: nat, x: nat)
-    requires wb >= 1, pow2(wb) <= range, lower + range < pow2(2 * wb), x < pow2(wb)
-    ensures ({
-        let th = pow2(wb); let m = pow2(2 * wb);
-        let point = (lower + th - 1) as nat; let pw = point / th;
-        let two = (lower + range) / th == pw;
-        let window = pw * th + (if two { 0 } else { x });
-        lower <= window && window < lower + range && pw < th
-    })
-{
-    let th = pow2(wb); let m = pow2(2 * wb);
-    lemma_pow2_pos(wb); lemma_pow2_adds(wb, wb); assert(wb + wb == 2 * wb);
-    let point = (lower + th - 1) as nat; let pw = point / th;
-    lemma_fundamental_div_mod(point as int, th as int); lemma_mod_bound(point as int, th as int);
-    lemma_mul_is_commutative(th as int, pw as int);
-    // pw*th <= point < pw*th + th ; pw*th >= point - (th-1) = lower
-    assert(pw * th >= lower);
-    let up = (lower + range) as nat; let uw = up / th;
-    lemma_fundamental_div_mod(up as int, th as int); lemma_mod_bound(up as int, th as int);
-    lemma_mul_is_commutative(th as int, uw as int);
-    if pw >= th { lemma_mul_inequality(th as int, pw as int, th as int); }
-    if uw != pw {
-        // up >= point + 1 > pw*th  => uw >= pw ; uw != pw => uw >= pw+1 => up >= (pw+1)*th
-        if uw < pw { lemma_mul_inequality((uw + 1) as int, pw as int, th as int); lemma_mul_is_distributive_add_other_way(th as int, uw as int, 1); }
-        lemma_mul_inequality((pw + 1) as int, uw as int, th as int); lemma_mul_is_distributive_add_other_way(th as int, pw as int, 1);
-    }
-}
-
-
-proof fn lemma_seal_normal_reach(wb: nat, lower: nat, range: nat, x: nat)
-    requires wb >= 1, pow2(wb) <= range, lower + range < pow2(2 * wb), x < pow2(wb)
-    ensures false
-{}
-// General seal lemma at State = 2 Words, all situations (C11 / C02).
-// M = 2^(2wb), TH = W = 2^wb.  The decoder window after the held-back words consists of the
-// point word followed by: the zero word if seal wrote two words, otherwise an ARBITRARY word x.
-// `carry` = the sealing point wrapped (then the held-back words were written as first+1, 0, ...,
-// which adds M to the value denoted by held-back words ++ window).
-pub open spec fn seal_window(wb: nat, lower: nat, range: nat, x: nat) -> (nat, bool) {
-    let th = pow2(wb); let m = pow2(2 * wb);
-    let point = (lower + th - 1) as nat;
-    let carry = point >= m;
-    let pw = (point % m) / th;
-    let two = ((lower + range) % m) / th == pw;
-    ((if carry { m } else { 0 }) + pw * th + (if two { 0 } else { x }), carry)
-}
-
-pub proof fn lemma_seal_window(wb: nat, lower: nat, range: nat, x: nat)
-    requires wb >= 1, pow2(wb) <= range < pow2(2 * wb), lower < pow2(2 * wb), x < pow2(wb)
-    ensures ({
-        let (v, carry) = seal_window(wb, lower, range, x);
-        &&& lower <= v < lower + range
-        &&& carry ==> lower + range >= pow2(2 * wb)      // a carry can only be pending in the inverted situation
-        &&& (((lower + th_of(wb) - 1) as nat) % pow2(2 * wb)) / th_of(wb) < pow2(wb)
-    })
-{
-    let th = pow2(wb); let m = pow2(2 * wb);
-    lemma_pow2_pos(wb); lemma_pow2_adds(wb, wb); assert(wb + wb == 2 * wb);
-    assert(m == th * th);
-    let point = (lower + th - 1) as nat;
-    let up = lower + range;
-    if point >= m {
-        // wrapped: point' = point - m < th  => pw = 0 ; lower > m - th ; lower + range >= m
-        let pp = (point - m) as nat;
-        lemma_mod_sub_multiples_vanish(point as int, m as int); lemma_small_mod(pp, m);
-        assert(point % m == pp);
-        assert(pp < th);
-        lemma_small_mod(pp, th); lemma_fundamental_div_mod(pp as int, th as int); lemma_mod_bound(pp as int, th as int);
-        assert(pp / th == 0) by { if pp / th >= 1 { lemma_mul_inequality(1, (pp / th) as int, th as int); lemma_mul_is_commutative(th as int, (pp / th) as int); } }
-        // up >= m and up < 2m
-        let upp = (up - m) as nat;
-        lemma_mod_sub_multiples_vanish(up as int, m as int); lemma_small_mod(upp, m);
-        assert(up % m == upp);
-        lemma_fundamental_div_mod(upp as int, th as int); lemma_mod_bound(upp as int, th as int);
-        if upp / th != 0 {
-            // one word, arbitrary x < th : need m + x < lower + range  i.e.  x < upp ; upp >= th
-            lemma_mul_inequality(1, (upp / th) as int, th as int); lemma_mul_is_commutative(th as int, (upp / th) as int);
-        }
-    } else {
-        lemma_small_mod(point, m);
-        let pw = point / th;
-        lemma_fundamental_div_mod(point as int, th as int); lemma_mod_bound(point as int, th as int);
-        lemma_mul_is_commutative(th as int, pw as int);
-        assert(pw < th) by { if pw >= th { lemma_mul_inequality(th as int, pw as int, th as int); } }
-        assert(pw * th >= lower);
-        if up < m {
-            lemma_small_mod(up, m);
-            let uw = up / th;
-            lemma_fundamental_div_mod(up as int, th as int); lemma_mod_bound(up as int, th as int);
-            lemma_mul_is_commutative(th as int, uw as int);
-            if uw != pw {
-                if uw < pw { lemma_mul_inequality((uw + 1) as int, pw as int, th as int); lemma_mul_is_distributive_add_other_way(th as int, uw as int, 1); }
-                lemma_mul_inequality((pw + 1) as int, uw as int, th as int); lemma_mul_is_distributive_add_other_way(th as int, pw as int, 1);
-            }
-        } else {
-            // inverted without carry: (pw+1)*th <= m <= lower + range, so any second word is fine
-            lemma_mul_inequality((pw + 1) as int, th as int, th as int); lemma_mul_is_distributive_add_other_way(th as int, pw as int, 1);
-        }
-    }
-}
-pub open spec fn th_of(wb: nat) -> nat { pow2(wb) }
-proof fn lemma_seal_window_reach(wb: nat, lower: nat, range: nat, x: nat)
-    requires wb >= 1, pow2(wb) <= range < pow2(2 * wb), lower < pow2(2 * wb), x < pow2(wb), lower + pow2(wb) - 1 >= pow2(2 * wb)
-    ensures false
-{}
+//@INCLUDE frag_seal.rs
 
 } // verus!
 fn main() {}
